@@ -80,8 +80,8 @@ def bid_side(eng, v):
         q = MUL(bs.P, c)
         f = bs.bidfee(q)
         exp = [(bs.qdenom, q, bs.owner)]
-        fee_paid = has_fee and any(fc[0] == 'val' and fc[1][0] == 'lt' and fc[2] is True and fc[1][1] == I(0) and dom.eq(fc[1][2], f) for fc, _, _ in p.facts)
-        fee_zero = has_fee and any(fc[0] == 'val' and fc[1][0] == 'lt' and fc[2] is False and fc[1][1] == I(0) and dom.eq(fc[1][2], f) for fc, _, _ in p.facts)
+        fee_paid = has_fee and any(sg == 'pos' and isinstance(y, tuple) and numericish(y) and dom.eq(y, f) for y, sg in p.signs())
+        fee_zero = has_fee and any(sg == 'zero' and isinstance(y, tuple) and numericish(y) and dom.eq(y, f) for y, sg in p.signs())
         if has_fee:
             eng.ob(fee_paid or fee_zero, PROP, 'fee-branch', v, '%s: fee-bearing bid: no branch on "returned fee > 0" found for the pro-rata fee' % v, detail=p.describe())
         if fee_paid: exp.append((bs.qdenom, f, bs.owner))
@@ -105,7 +105,7 @@ def bid_side(eng, v):
             ok = dom.is_zero(new_remB) or p.holds(EQ(I(0), SUB(bs.B, ADD(bs.aB, c))), True) is not None
             eng.ob(ok, PROP, 'remove-iff-zero', v + ':remove', '%s: bid removed on a path that does not establish the remaining size is zero' % v, where=w['site'], detail=p.describe())
         else:
-            ok = any(fc[0] == 'val' and fc[2] is False and fc[1][0] == 'eq' and fc[1][1] == I(0) and dom.eq(fc[1][2], new_remB) for fc, _, _ in p.facts)
+            ok = any(sg == 'pos' and isinstance(y, tuple) and numericish(y) and dom.eq(y, new_remB) for y, sg in p.signs())
             eng.ob(ok, PROP, 'remove-iff-zero', v + ':save', '%s: bid saved on a path that does not establish the remaining size is non-zero' % v, where=w['site'], detail=p.describe())
         eng.ob(val is not None, PROP, 'record', v + ':visible', '%s: cannot see the updated bid record at the write' % v, where=w['site'])
         if val is None: continue
